@@ -27,6 +27,7 @@ var Leaves = []Leaf{
 	{tf[int64](), "int32"}, {tf[int64](), "int16"}, {tf[int64](), "int8"},
 	{tf[uint64](), ""}, {tf[uint](), ""}, {tf[uint32](), ""}, {tf[uint16](), ""}, {tf[uint8](), ""},
 	{tf[uint64](), "uint64"}, {tf[uint64](), "uint32"}, {tf[uint64](), "uint16"}, {tf[uint64](), "uint8"},
+	{tf[int64](), "uint8"}, {tf[int64](), "uint32"}, {tf[int64](), "uint64"}, {tf[uint64](), "int8"}, {tf[uint64](), "int32"}, {tf[int](), "uint16"},
 	{tf[float64](), ""}, {tf[float32](), ""}, {tf[float64](), "float32"},
 	{tf[bool](), ""},
 	{tf[[]byte](), ""}, {tf[[]byte](), "binary"}, {tf[[]byte](), "large_binary"},
@@ -58,6 +59,8 @@ var Maps = []reflect.Type{
 	tf[map[string]string](), tf[map[string]int64](), tf[map[string]float64](), tf[map[string]bool](),
 	tf[map[int64]string](), tf[map[int32]int64](), tf[map[uint64]string](), tf[map[int](int64)](),
 	tf[map[string][]int64](), tf[map[string][]byte](), tf[map[int64]float64](),
+	// map items are nullable on the wire (arrow.MapOf); a nil pointer value is a null item
+	tf[map[string]*int64](), tf[map[string]*string](), tf[map[int64]*float64](),
 }
 
 // DefaultKinds are the kinds the guide documents default= for.
